@@ -83,8 +83,11 @@ def register(eng):
     @model("From::from@Hash")
     def _(eng, a, c):
         # Hash::<N>::from(&[u8]) copies into [u8; N]: panics on a length mismatch
-        m = re.search(r"Hash<(\d+)>", eng._self_t)
+        # `Hash::<N>::from(x)` names N in the self type, `x.into()` in the trait's generic argument
+        m = re.search(r"Hash<(\d+)>", eng._self_t or "") or re.search(r"Hash<(\d+)>", eng._tg or "") or re.search(r"Hash<(\d+)>", c or "")
         n = int(m.group(1)) if m else None
+        if n is None:
+            raise Unmodelled("Hash::from without a known size: " + str(c))
         x = deref(a[0])
         items = list(x.items)
         if n is not None and len(items) != n:
